@@ -419,6 +419,7 @@ var crlAlphabet = []string{
 	"delta-bad-indicator", "delta-wrong-signer", "delta-expired", "delta-no-nextupdate", "delta-crit-unknown-ext", "delta-lists-cert", "base-lists-delta-removes",
 	"base-no-number-delta", "delta-no-number", "both-no-number", "base-no-number",
 	"fetch-error", "fetch-error-timeout", "fetch-error-deadline", "fetch-error-canceled", "fetch-error-cache-miss", "fetch-error-eof", "entry-crit-ext", "entry-crit-ext-other-serial", "hold", "hold-then-remove",
+	"many-entries-delta-entries", "many-entries-delta-lists-cert",
 }
 
 var crlCore = []string{"clean", "lists-cert", "wrong-signer", "expired", "no-nextupdate", "crit-unknown-ext", "delta-ok", "delta-n5-i4", "delta-n7-i6", "delta-lists-cert", "fetch-error", "entry-crit-ext"}
@@ -461,6 +462,19 @@ func (c *crlCtx) behaviour(label string) *fetchBehaviour {
 		base.NonCritUnknown = true
 	case "idp-critical":
 		base.IDPCritical = true
+	case "many-entries-delta-entries":
+		// three foreign entries in the base (a parsed list of three has room for a fourth), two in the delta
+		for i := 0; i < 3; i++ {
+			base.Entries = append(base.Entries, EntrySpec{Serial: big.NewInt(int64(880001 + i)), Reason: 1, RevTime: c.now.Add(-2 * time.Hour)})
+		}
+		delta = mkDelta()
+		delta.Entries = []EntrySpec{{Serial: big.NewInt(880100), Reason: 1, RevTime: c.now.Add(-time.Hour)}, {Serial: big.NewInt(880101), Reason: 6, RevTime: c.now.Add(-time.Hour)}}
+	case "many-entries-delta-lists-cert":
+		for i := 0; i < 5; i++ {
+			base.Entries = append(base.Entries, EntrySpec{Serial: big.NewInt(int64(880001 + i)), Reason: 1, RevTime: c.now.Add(-2 * time.Hour)})
+		}
+		delta = mkDelta()
+		delta.Entries = []EntrySpec{entry(1, c.now.Add(-time.Hour))}
 	case "delta-ok":
 		delta = mkDelta()
 	case "delta-num-eq":
@@ -1068,8 +1082,16 @@ func runChainCases(r *Runner, cases []chainCase) {
 	wg.Wait()
 }
 
-func ocspURL(level, i int) string { return fmt.Sprintf("http://ocsp%d.l%d.test/r", i, level) }
-func crlURL(level, i int) string  { return fmt.Sprintf("http://crl%d.l%d.test/list.crl", i, level) }
+// the advertised order of a certificate's URLs is deliberately not their sorted order (m, z, a, k, …): sorting or
+// deduplicating them is observable
+var urlOrderTag = []string{"m", "z", "a", "k", "y", "b"}
+
+func ocspURL(level, i int) string {
+	return fmt.Sprintf("http://%s-ocsp%d.l%d.test/r", urlOrderTag[i%len(urlOrderTag)], i, level)
+}
+func crlURL(level, i int) string {
+	return fmt.Sprintf("http://%s-crl%d.l%d.test/list.crl", urlOrderTag[i%len(urlOrderTag)], i, level)
+}
 
 // all sequences of length n over alphabet
 func sequences(alpha []string, n int) [][]string {
